@@ -419,6 +419,14 @@ def fam_c09(R, n):
             out.append(dict(family='c09-skips', src=enum(['#[logos(%s)]' % ', '.join('skip %s' % rust_str(sp) for sp in skips)], ['#[regex("[0-9]+")] N,', '#[token("zzzz")] Z,']),
                             meta=dict(complexity_leaves=list(range(len(skips) + 1)), token_leaf=len(skips) + 1, token_len=4,
                                       leaf_sources=[rust_str(sp) for sp in skips] + ['"[0-9]+"', '"zzzz"'])))
+    # "an explicit priority = n replaces the default": whatever its size, the explicit value takes part in the comparison as a number
+    # (values around the limits of i32 / i64 / usize), on tokens, regexes and skips, declared before and after the competitor
+    for pr in (1000, 2 ** 31 - 1, 2 ** 31, 2 ** 32, 2 ** 63 - 1, 2 ** 63, 9999999999999999999, 2 ** 64 - 1):
+        for (a, b, text, nm) in [('#[token("ab", priority = %d)] Big,' % pr, '#[regex("[a-z]{2}")] Small,', 'ab', 'Big'),
+                                 ('#[regex("[aeiou]+", priority = %d)] Big,' % pr, '#[regex("[a-z]+")] Small,', 'aei', 'Big'),
+                                 ('#[regex("[0-9]+", priority = %d)] Big,' % pr, '#[regex("[0-9a-f]+", priority = %d)] Small,' % (pr - 1), '123', 'Big')]:
+            for order in ((a, b), (b, a)):
+                out.append(dict(family='c09-literal', src=enum([], list(order)), meta=dict(literal=text.encode('utf-8').hex(), lit_name=nm)))
     # "a literal token is never beaten on its own text by a regex with default priority: it wins or the derive reports an ambiguity"
     for w, rs in [('if', ['[a-z]+', 'i[a-z]', '..', '[a-z]{2}', 'if|else', '(?i)IF', 'i?f+', '\\w+', '[a-z]+(?-u:\\b)', 'if$']),
                   ('é', ['\\p{L}', '.', '[^a]', 'é+', '(?i)É']), ('==', ['=+', '[=!]=', '={2}', '==?']), ('中a', ['\\p{Han}[a-z]', '..', '[^ ]+']),
